@@ -12,6 +12,8 @@ import (
 	"github.com/ThreeDotsLabs/watermill"
 	"github.com/ThreeDotsLabs/watermill/message"
 	"github.com/ThreeDotsLabs/watermill/message/router/middleware"
+
+	"wmverif/script"
 )
 
 // C12 — drives the real middleware.Retry.  A *group* is ONE Retry value and ONE wrapped handler
@@ -50,13 +52,14 @@ type c12Case struct {
 	CancelDelay int64     `json:"canceldelay"`
 	StartDelay  int64     `json:"startdelay"`
 
-	Trace [][]int64 `json:"trace"` // [0,k,ts,te,sameMsg] | [1,n,d,mr,errOK] | [2,n,d]
-	Outs  []int64   `json:"outs"`
-	Err   int64     `json:"err"`
-	TRet  int64     `json:"tret"`
-	CPre  int64     `json:"cpre"` // -1 = never cancelled
-	CPost int64     `json:"cpost"`
-	Done  bool      `json:"done"`
+	Trace  [][]int64 `json:"trace"` // [0,k,ts,te,sameMsg] | [1,n,d,mr,errOK] | [2,n,d]
+	Outs   []int64   `json:"outs"`
+	Err    int64     `json:"err"`
+	TRet   int64     `json:"tret"`
+	CPre   int64     `json:"cpre"` // -1 = never cancelled
+	CPost  int64     `json:"cpost"`
+	Done   bool      `json:"done"`
+	Settle int       `json:"settle"` // router mode: 1 acked, 2 nacked, 0 unsettled; -1 = not run through a Router
 
 	mu       sync.Mutex
 	msg      *message.Message
@@ -187,10 +190,10 @@ func (l c12Logger) Error(msg string, err error, f watermill.LogFields) {
 	c.Trace = append(c.Trace, []int64{1, int64(n), int64(d), int64(mr), errOK})
 	c.mu.Unlock()
 }
-func (l c12Logger) Info(string, watermill.LogFields)                   {}
-func (l c12Logger) Debug(string, watermill.LogFields)                  {}
-func (l c12Logger) Trace(string, watermill.LogFields)                  {}
-func (l c12Logger) With(watermill.LogFields) watermill.LoggerAdapter   { return l }
+func (l c12Logger) Info(string, watermill.LogFields)                 {}
+func (l c12Logger) Debug(string, watermill.LogFields)                {}
+func (l c12Logger) Trace(string, watermill.LogFields)                {}
+func (l c12Logger) With(watermill.LogFields) watermill.LoggerAdapter { return l }
 
 func c12gid() int64 {
 	// same parsing as hookrt.gid (not exported there)
@@ -210,6 +213,21 @@ func (g *c12Group) runCase(c *c12Case, wrapped message.HandlerFunc) {
 		}
 		outs, err := wrapped(c.msg)
 		tret := g.now()
+		c.record(outs, err, tret)
+		g.mu.Lock()
+		delete(g.byGid, id)
+		g.mu.Unlock()
+	}()
+	select {
+	case <-done:
+	case <-time.After(30 * time.Second):
+	}
+	c.wg.Wait()
+	c.cancel()
+}
+
+func (c *c12Case) record(outs []*message.Message, err error, tret int64) {
+	{
 		c.mu.Lock()
 		c.TRet = tret
 		c.Outs = []int64{}
@@ -229,16 +247,67 @@ func (g *c12Group) runCase(c *c12Case, wrapped message.HandlerFunc) {
 		}
 		c.Done = true
 		c.mu.Unlock()
-		g.mu.Lock()
-		delete(g.byGid, id)
-		g.mu.Unlock()
-	}()
-	select {
-	case <-done:
-	case <-time.After(30 * time.Second):
 	}
-	c.wg.Wait()
-	c.cancel()
+}
+
+// router mode: the wrapped handler is a middleware of a handler of a real Router; a recorder
+// middleware outside of it sees what Retry returned; the Router's own goroutine per message
+// runs recorder, Retry, handler, hook and logger.
+func (g *c12Group) runRouter(cases []*c12Case, retryMw message.HandlerMiddleware) {
+	router, err := message.NewRouter(message.RouterConfig{CloseTimeout: 5 * time.Second}, watermill.NopLogger{})
+	if err != nil {
+		return
+	}
+	sub := script.NewSubscriber(true)
+	pub := &script.Publisher{}
+	h := router.AddHandler("h", "in", sub, "out", pub, g.handler)
+	recorder := func(next message.HandlerFunc) message.HandlerFunc {
+		return func(msg *message.Message) ([]*message.Message, error) {
+			c := g.byUUID[msg.UUID]
+			id := c12gid()
+			g.mu.Lock()
+			g.byGid[id] = c
+			g.mu.Unlock()
+			outs, err := next(msg)
+			tret := g.now()
+			if c != nil {
+				c.record(outs, err, tret)
+			}
+			g.mu.Lock()
+			delete(g.byGid, id)
+			g.mu.Unlock()
+			return outs, err
+		}
+	}
+	h.AddMiddleware(recorder, retryMw)
+	ctx, cancel := context.WithCancel(context.Background())
+	defer cancel()
+	go func() { _ = router.Run(ctx) }()
+	select {
+	case <-router.Running():
+	case <-time.After(5 * time.Second):
+		return
+	}
+	var wg sync.WaitGroup
+	for _, c := range cases {
+		wg.Add(1)
+		go func(c *c12Case) {
+			defer wg.Done()
+			if c.StartDelay > 0 {
+				time.Sleep(time.Duration(c.StartDelay))
+			}
+			if !sub.Emit("in", c.msg, 5*time.Second) {
+				return
+			}
+			st := script.WaitSettled(c.msg, 30*time.Second)
+			c.mu.Lock()
+			c.Settle = st
+			c.mu.Unlock()
+		}(c)
+	}
+	wg.Wait()
+	cancel()
+	_ = router.Close()
 }
 
 func c12RunGroup(cases []*c12Case) {
@@ -267,7 +336,15 @@ func c12RunGroup(cases []*c12Case) {
 		c.produced = map[*message.Message]int64{}
 		c.errs = map[error]int64{}
 		c.CPre, c.CPost = -1, -1
+		c.Settle = -1
 		g.byUUID[c.ID] = c
+	}
+	if cases[0].Mode == "router" {
+		for _, c := range cases {
+			c.Settle = 0
+		}
+		g.runRouter(cases, r.Middleware)
+		return
 	}
 	if cases[0].Mode == "seq" {
 		for _, c := range cases {
@@ -395,7 +472,7 @@ func c12Generate(seed int64, scale int) [][]*c12Case {
 		var cs []*c12Case
 		for i := 0; i < n; i++ {
 			c := &c12Case{ID: fmt.Sprintf("g%d-m%d", gi, i), Group: gi, Family: family, Mode: mode, Cfg: cfg, InFlight: 1}
-			if mode == "conc" {
+			if mode == "conc" || mode == "router" {
 				c.InFlight = n
 			}
 			mk(i, c)
@@ -434,6 +511,17 @@ func c12Generate(seed int64, scale int) [][]*c12Case {
 					c.Script = c12script(rng, 2+rng.Intn(cfg.MR), rng.Intn(2) == 0)
 				}
 				c.StartDelay = int64(i) * c12pick64(rng, 3, 6, 9, 14) * c12ms
+			})
+		}
+		// F2b: the same through a real Router: Retry is a handler middleware, 2..5 messages in flight
+		for i := 0; i < 5; i++ {
+			cfg := c12smallCfg(rng)
+			if cfg.MR > 5 {
+				cfg.MR = 5
+			}
+			add("router", "router", cfg, 2+rng.Intn(4), func(i int, c *c12Case) {
+				c.Script = c12randScript(rng, cfg.MR)
+				c.StartDelay = int64(i) * c12pick64(rng, 0, 2, 5, 9) * c12ms
 			})
 		}
 		// F3: the handler cancels the message context during attempt j; the next wait is long
